@@ -666,3 +666,62 @@ Section Sim.
       destruct (Hreg fu k _ _ m Hmv Hm) as [m' [Em Sm]]. rewrite Em. cbn [bind]. eexists. split; [reflexivity | exact Sm].
   Qed.
 End Sim.
+
+(* ================= 3. the symbolic run ================= *)
+(* do_codegen(f, *symbolic multivectors): MultiVector's members as in [direct]; an operator call is
+   OperatorDict.__call__ on symbolic operands = the generated function on the symbolic value lists followed by
+   the filter [F operands result] (OperatorDict.filter; it is applied when an operand is symbolic, hence the
+   operands as a parameter); a call of a registered function is Registry.__call__ on symbolic multivectors = the
+   compiled tape on the symbolic value lists, no filter *)
+Definition symbolic_run {T} (OT : ops T) (A : alg) (F : list (mv T) -> mv T -> mv T) (opd : optable T)
+    (mvtab tapetab : mtable) (bodies : list (expr T)) : nat -> list (mv T) -> expr T -> res (@val T) :=
+  directG OT A (fun op xs => r <- call_op opd op xs ;; Ok (F xs r)) (registered OT A opd tapetab bodies) mvtab.
+
+Lemma directG_ext {T} (OT : ops T) A call call' reg reg' mvtab :
+  (forall op xs, call op xs = call' op xs) -> (forall fu k xs, reg fu k xs = reg' fu k xs) ->
+  forall fuel env e, directG OT A call reg mvtab fuel env e = directG OT A call' reg' mvtab fuel env e.
+Proof.
+  intros Hcl Hrg.
+  assert (M1 : forall m v, g_meth1 call mvtab m v = g_meth1 call' mvtab m v).
+  { intros m [c|x]; cbn [g_meth1]; [reflexivity|]. destruct (mlookup m mvtab) as [[[op sw] [|[|ar]]]|]; try reflexivity.
+    rewrite Hcl. reflexivity. }
+  assert (M2 : forall m v1 v2, g_meth2 call mvtab m v1 v2 = g_meth2 call' mvtab m v1 v2).
+  { intros m [c|x] v2; cbn [g_meth2]; [reflexivity|]. destruct (mlookup m mvtab) as [[[op sw] [|[|[|ar]]]]|]; try reflexivity.
+    destruct sw; rewrite Hcl; reflexivity. }
+  assert (MI : forall o v1 v2, g_infix OT call mvtab o v1 v2 = g_infix OT call' mvtab o v1 v2).
+  { intros o [a|x] [b|y]; cbn [g_infix]; try reflexivity; apply M2. }
+  assert (MN : forall v, g_norm call mvtab v = g_norm call' mvtab v).
+  { intros v. unfold g_norm. rewrite M1. destruct (g_meth1 call' mvtab "normsq" v); cbn [bind]; [apply M1 | reflexivity]. }
+  assert (ML : forall n x acc, pow_loop n (fun r => g_meth2 call mvtab "gp" r x) acc = pow_loop n (fun r => g_meth2 call' mvtab "gp" r x) acc).
+  { induction n as [|n IHn]; intros x acc; cbn [pow_loop]; [reflexivity|]. rewrite M2.
+    destruct (g_meth2 call' mvtab "gp" acc x); cbn [bind]; [apply IHn | reflexivity]. }
+  induction fuel as [|fu IH]; intros env e; [reflexivity|].
+  destruct e; cbn [directG]; rewrite ?IH; try reflexivity.
+  - destruct (directG OT A call' reg' mvtab fu env e); cbn [bind]; [apply M1 | reflexivity].
+  - destruct (directG OT A call' reg' mvtab fu env e1); cbn [bind]; [|reflexivity].
+    destruct (directG OT A call' reg' mvtab fu env e2); cbn [bind]; [apply M2 | reflexivity].
+  - destruct (directG OT A call' reg' mvtab fu env e) as [[c|x]|]; cbn [bind g_prefix]; try reflexivity. apply M1.
+  - destruct (directG OT A call' reg' mvtab fu env e1); cbn [bind]; [|reflexivity].
+    destruct (directG OT A call' reg' mvtab fu env e2); cbn [bind]; [apply MI | reflexivity].
+  - destruct (directG OT A call' reg' mvtab fu env e) as [[c|x]|]; cbn [bind g_pow]; try reflexivity.
+    destruct (n =? 0); [reflexivity|]. destruct (n <? 0); cbn [bind]; [|apply ML].
+    rewrite M1. destruct (g_meth1 call' mvtab "inv" (VMv x)); cbn [bind]; [apply ML | reflexivity].
+  - destruct (directG OT A call' reg' mvtab fu env e) as [[c|x]|]; cbn [bind g_dual]; try reflexivity.
+    destruct (dual_member A false k); cbn [bind]; [apply M1 | reflexivity].
+  - destruct (directG OT A call' reg' mvtab fu env e) as [[c|x]|]; cbn [bind g_dual]; try reflexivity.
+    destruct (dual_member A true k); cbn [bind]; [apply M1 | reflexivity].
+  - destruct (directG OT A call' reg' mvtab fu env e); cbn [bind]; [apply MN | reflexivity].
+  - destruct (directG OT A call' reg' mvtab fu env e) as [[c|x]|]; cbn [bind g_normalized]; try reflexivity.
+    rewrite MN. destruct (g_norm call' mvtab (VMv x)); cbn [bind]; [apply MI | reflexivity].
+  - rewrite (mapM_ext _ _ args (IH env)).
+    destruct (mapM (directG OT A call' reg' mvtab fu env) args); cbn [bind]; [|reflexivity]. rewrite Hrg. reflexivity.
+Qed.
+
+(* sanity: with the filter that keeps everything the symbolic run is [direct] over the symbol structure *)
+Theorem symbolic_run_nofilter {T} (OT : ops T) A opd mvtab tapetab bodies fuel env e :
+  symbolic_run OT A (fun _ r => r) opd mvtab tapetab bodies fuel env e
+  = direct OT A opd mvtab tapetab bodies fuel env e.
+Proof.
+  rewrite directG_direct. unfold symbolic_run. apply directG_ext; [|reflexivity].
+  intros op xs. destruct (call_op opd op xs); reflexivity.
+Qed.
